@@ -1,33 +1,33 @@
-SPECIFICATION Spec
+SPECIFICATION SpecBounded
 CONSTANTS
-  Users = {"u1"}
+  Users = {"u1", "u2"}
   Tokens = {"btc"}
   Std = "stake"
   RecordHist = FALSE
-  InitStd = 24
-  InitTok = 18
-  CFee = 3
-  FeeNum = 3
+  InitStd = 12
+  InitTok = 6
+  CFee = 2
+  FeeNum = 1
   FeeDen = 10
-  UniNum = 2
+  UniNum = 1
   UniDen = 10
-  TaxNum = 2
-  TaxDen = 5
-  Amts = {1, 2, 3, 5, 7}
-  Mins = {0, 2}
-  Liqs = {1, 3, 4}
-  Donations = {1, 2}
-  DlOffs = {0, 1}
-  MaxNow = 2
+  TaxNum = 1
+  TaxDen = 2
+  Amts = {2}
+  Mins = {0, 1}
+  Liqs = {2}
+  Donations = {1}
+  DlOffs = {1}
+  MaxNow = 1
   Senders = {"u1"}
-  Recipients = {"u1", "feepool"}
-  MaxSteps = 100
+  Recipients = {"u1"}
+  MaxSteps = 5
   DonateAlso = {}
-  Odd = {}
-  InitOdd = 0
-  WrongKind = FALSE
+  Odd = {"voucher-1"}
+  InitOdd = 4
+  WrongKind = TRUE
   WithUni = TRUE
-VIEW View
+VIEW ViewDepth
 INVARIANTS
   Inv_C02_Conservation
 PROPERTIES
@@ -49,4 +49,5 @@ PROPERTIES
   Act_X02_BlockedUntouched
   Act_X02_ModuleOnlyGifts
   Act_X02_DonateFrame
+  Act_X02_OneSidedReserve
 CHECK_DEADLOCK FALSE
